@@ -287,6 +287,21 @@ def _loads_stores(fn, name):
     return loads, stores
 
 
+def _pure(e):
+    """names, constants, attributes of names, arithmetic / shifts / subscripts of these, slice(...) and len(...) of these"""
+    if isinstance(e, (ast.Name, ast.Constant)):
+        return True
+    if isinstance(e, ast.Attribute):
+        return _pure(e.value)
+    if isinstance(e, ast.BinOp):
+        return _pure(e.left) and _pure(e.right)
+    if isinstance(e, ast.UnaryOp):
+        return _pure(e.operand)
+    if isinstance(e, ast.Call) and isinstance(e.func, ast.Name) and e.func.id in ('slice', 'len') and not e.keywords:
+        return all(_pure(a) for a in e.args)
+    return False
+
+
 def _first_use_host(st):
     """The part of the next statement in which a temporary may be substituted: the statement itself when it is simple, the test of
     an if."""
@@ -321,6 +336,26 @@ def inline_new_temps(module_name, tree):
                     if t in known or t in params:
                         continue
                     loads, stores = _loads_stores(fn, t)
+                    if len(stores) == 1 and len(loads) > 1 and _pure(st.value):
+                        # a pure expression over names that are not re-bound while the temporary is in use: substitute at every use
+                        rest = lst[i + 1:]
+                        inside = [x for r_ in rest for x in ast.walk(r_)]
+                        operands = set(x.id for x in ast.walk(st.value) if isinstance(x, ast.Name))
+                        if all(any(l_ is x for x in inside) for l_ in loads) and not any(
+                                isinstance(x, ast.Name) and isinstance(x.ctx, (ast.Store, ast.Del)) and x.id in operands for x in inside) and \
+                                not any(isinstance(x, (ast.Lambda, ast.FunctionDef)) for x in inside):
+                            value = st.value
+                            ids = set(id(l_) for l_ in loads)
+
+                            class _M(ast.NodeTransformer):
+                                def visit_Name(self, node):
+                                    return ast.copy_location(copy.deepcopy(value), node) if id(node) in ids else node
+                            for k in range(i + 1, len(lst)):
+                                lst[k] = _M().visit(lst[k])
+                            del lst[i]
+                            n += 1
+                            changed = True
+                            break
                     if len(stores) != 1 or len(loads) != 1:
                         continue
                     host = _first_use_host(lst[i + 1])
@@ -343,6 +378,66 @@ def inline_new_temps(module_name, tree):
                     break
                 if changed:
                     break
+    if n:
+        ast.fix_missing_locations(tree)
+    return n
+
+
+def _literal(e):
+    if isinstance(e, ast.Constant):
+        return True
+    if isinstance(e, (ast.Tuple, ast.List)):
+        return all(_literal(x) for x in e.elts)
+    if isinstance(e, ast.UnaryOp) and isinstance(e.op, (ast.USub, ast.Invert)):
+        return _literal(e.operand)
+    if isinstance(e, ast.BinOp):
+        return _literal(e.left) and _literal(e.right)
+    return False
+
+
+def inline_new_constants(module_name, tree):
+    """Undo "move a constant to module / class level": a name bound once, at module or class level, to a literal, which the
+    reference module does not have, is replaced by the literal wherever it is read (plain `NAME`, `self.NAME`, `Class.NAME`)."""
+    ref = alpha.reference().get(module_name)
+    if not ref or '__names__' not in ref:
+        return 0
+    known = set(ref['__names__'])
+    cands = {}
+    for node in ast.walk(tree):
+        if isinstance(node, (ast.Module, ast.ClassDef)):
+            for st in node.body:
+                if isinstance(st, ast.Assign) and len(st.targets) == 1 and isinstance(st.targets[0], ast.Name) and _literal(st.value):
+                    nm = st.targets[0].id
+                    if nm not in known:
+                        cands[nm] = None if nm in cands else (st.value, isinstance(node, ast.ClassDef))
+    cands = {k: v for k, v in cands.items() if v is not None}
+    # the name must not be bound anywhere else
+    for x in ast.walk(tree):
+        if isinstance(x, ast.Name) and isinstance(x.ctx, (ast.Store, ast.Del)) and x.id in cands:
+            cands[x.id] = (cands[x.id][0], cands[x.id][1], cands[x.id][2] + 1 if len(cands[x.id]) > 2 else 1)
+        if isinstance(x, ast.arg) and x.arg in cands:
+            cands[x.arg] = (cands[x.arg][0], cands[x.arg][1], 99)
+    cands = {k: v for k, v in cands.items() if len(v) > 2 and v[2] == 1}
+    if not cands:
+        return 0
+    n = 0
+
+    class _C(ast.NodeTransformer):
+        def visit_Name(self, node):
+            nonlocal n
+            if isinstance(node.ctx, ast.Load) and node.id in cands and not cands[node.id][1]:
+                n += 1
+                return ast.copy_location(copy.deepcopy(cands[node.id][0]), node)
+            return node
+
+        def visit_Attribute(self, node):
+            nonlocal n
+            self.generic_visit(node)
+            if isinstance(node.ctx, ast.Load) and node.attr in cands and cands[node.attr][1] and isinstance(node.value, ast.Name):
+                n += 1
+                return ast.copy_location(copy.deepcopy(cands[node.attr][0]), node)
+            return node
+    _C().visit(tree)
     if n:
         ast.fix_missing_locations(tree)
     return n
